@@ -185,6 +185,11 @@ def directed(run, prop, tier, seed):
                 (f"*=0x008000\nmode := 1\n{{\n.if mode {{\n.db 0xAA\n}}\nmode = {b}\n.db mode\n}}\n", bytes([0xAA, b])),
                 # a call-site name spelled like a parameter of the applied macro
                 (f"*=0x008000\nx := {a}\n.macro pair(x, y) {{\n.db x, y\n}}\npair(1, x + 1)\n", bytes([1, a + 1])),
+                # an argument that names a label defined later is looked up where the macro is applied: a label of the same
+                # name inside the macro body, or a parameter of that name, does not capture it (renaming those changes nothing)
+                ("*=0x008000\n.macro entry_zq(target) {\nloop:\n.dw target\n}\nentry_zq(loop)\nnop\nloop:\nrts\n", bytes([0x03, 0x80, 0xEA, 0x60])),
+                ("*=0x008000\n.macro entry_zq(target) {\ninner_zq:\n.dw target\n}\nentry_zq(loop)\nnop\nloop:\nrts\n", bytes([0x03, 0x80, 0xEA, 0x60])),
+                ("*=0x008000\n.macro m_zq(a, b) {\n.dw a, b\n}\n{\na:\nnop\nb:\nm_zq(b, a)\n}\n", bytes([0xEA, 0x01, 0x80, 0x00, 0x80])),
                 # block-valued parameters of the same name in nested applications / a sibling symbol of that name
                 (f"*=0x008000\n.macro inner(chunk) {{\n{{{{chunk}}}}\n}}\n.macro outer(chunk) {{\n.db 0xaa\ninner({{\n.db {a}\n}})\n{{{{chunk}}}}\n}}\nouter({{\n.db {b}\n}})\n", bytes([0xAA, a, b])),
                 (f"*=0x008000\n.macro w(chunk) {{\n{{{{chunk}}}}\n}}\nw({{\n.db {a}\n}})\n{{\nchunk = {b}\n.db chunk\n}}\n", bytes([a, b])),
